@@ -101,6 +101,26 @@ def check(ex, info):
     want = order[1:]
     if len(ac) != len(want) or any(a is not b for a, b in zip(ac, want)):
         fail("all_children-breadth-first-once", [ex.lab(x) for x in want], [ex.lab(x) for x in ac])
+    # detached elements (popped / deleted / replaced members waiting in the pool): C08 promises nothing about where
+    # their stale parent pointer leads — only that they are unreachable — but reading them must work and root, parents
+    # and path must agree with one another (a popped List member's root is its orphaned ListSlot)
+    for e in ex.pool:
+        if not isinstance(e, Element):
+            continue
+        try:
+            chain = ex.parents(e)
+            path = list(itertools.islice(e.path, G.CHAIN_BOUND + 1))
+            top = chain[-1] if chain else e
+            want_path = list(reversed(chain)) + [e]
+            if e.root is not top or len(path) != len(want_path) or any(a is not b for a, b in zip(path, want_path)):
+                fail("detached-root-parents-path-agree", "root is the end of the parent chain, path is the chain reversed",
+                     "they disagree")
+                break
+        except Exception as exc:
+            if type(exc).__name__ == "CaseTimeout":
+                raise
+            fail("detached-readable", "root / parents / path can be read", type(exc).__name__)
+            break
     # removed elements are unreachable from the container, placed ones are children of it
     target = info.get("target")
     if target is not None and info.get("raised") is None:
@@ -238,8 +258,12 @@ class C08(Property):
         "allocation counter) and `ArgWP` (internally well-parented); uniqueness of identities is then a proved invariant",
         "keys are unique in every mapping node and every mapping class of the tree and of the arguments (`kok`; holds for "
         "everything the model constructs from a class with distinct field names, and is preserved by every call)",
-        "set_flat / from_flat / from_object construction routes are checked by the Python oracle only (no Lean model "
-        "of the flat-key parser here; it belongs to C01/C02)",
+        "set_flat / from_flat / Dict.from_object construction routes are generated and checked by the Python oracle "
+        "only (no Lean model of the flat-key parser here; it belongs to C01/C02)",
+        "removed elements: C08 promises that they are unreachable from the container; their own parent pointer may be "
+        "stale (Array.pop / del / SparseDict.pop leave it; List.pop clears the slot's, so a popped member's root is its "
+        "orphaned ListSlot). They are observed (read) at random points and their root / parents / path must agree with "
+        "one another",
         "sort keys range over {u, len(u)}",
     ]
     rule = ("schemas nested up to 3 deep over List/Array/MultiValue/Dict/SparseDict/Integer/String with defaults, 30 % of "
@@ -336,7 +360,13 @@ class C08(Property):
             hostile = rng.random() < 0.15
             r = rng.random()
             case = {"schema": schema}
-            if r < 0.08:
+            if r < 0.03 and schema["k"] in ("dict", "sparse"):
+                # Dict.from_object(obj): oracle only
+                case["nomodel"] = True
+                case["init"] = {"route": "from_object", "value": G.gen_value(rng, dict(schema, k="dict"), valid=True)}
+                if "p" in case["init"]["value"]:
+                    case["init"]["value"] = {"d": case["init"]["value"]["p"]}
+            elif r < 0.08:
                 # flat routes: oracle only
                 case["nomodel"] = True
                 pairs = []
